@@ -121,7 +121,9 @@ func C04(t *rapid.T) *world.Scenario {
 		// encodings, escaping, case folding, trimming) could map to the same thing
 		pairs := [][2]string{{"caf$XE9", "caf%E9"}, {"caf$XE9", "caf$XEF$XBF$XBD"}, {"caf$XE9", "caf$XE8"}, {"caf$XE9", "636166e9"},
 			{"caf$XE9", "caf\\xe9"}, {"caf$XE9", "caf?"}, {"caf$XE9", "caf$XC3$XA9"}, {"$XC3$XA9", "%C3%A9"}, {"a%2Cb", "a,b"}, {"a\"b", "a%22b"},
-			{"$XFF", "$XFE"}, {"$XFF$XFE", "$XFE$XFF"}, {"x$XE9y$XE9", "x$XE9y%E9"}}
+			{"$XFF", "$XFE"}, {"$XFF$XFE", "$XFE$XFF"}, {"x$XE9y$XE9", "x$XE9y%E9"},
+			// letter case is part of an opaque value
+			{"Abc", "abc"}, {"TOKEN-a", "token-A"}, {"sid=AbC", "sid=abc"}}
 		pr := pairs[rapid.IntRange(0, len(pairs)-1).Draw(t, "twinpair")]
 		f := Pick(t, "twinfield", "X-A", "X-A", "X-B", "Cookie", "User-Agent")
 		if Pct(t, "twinweights", 35) {
